@@ -55,6 +55,10 @@ pub struct StoreCase {
     /// policy changes made through the actor while the document stays open and entries keep arriving: (before entry, policy)
     #[serde(default)]
     pub live_changes: Vec<(u16, PSpec)>,
+    /// after the i-th policy was set (and read back) a capability for document `slot` is imported again - the same one, the
+    /// read capability on top of the write capability, ... - and the policies are read once more: an import is not a policy change
+    #[serde(default)]
+    pub reimports: Vec<Option<(u8, bool)>>,
 }
 
 #[derive(Serialize, Deserialize, Clone, Debug)]
@@ -180,9 +184,10 @@ impl Prop for C15 {
 
     fn strategy(_tier: Tier) -> BoxedStrategy<Case> {
         let pure = (pspec(), vec(keyrel(), 1..=8), vec(filter_string(), 0..=4)).prop_map(|(policy, keys, strings)| Case::Pure(Pure { policy, keys, strings }));
-        let store = (prop::bool::weighted(0.3), vec((0u8..3, pspec()), 1..=4), vec(keyrel(), 1..=6), vec((any::<u16>(), pspec()), 0..=2))
-            .prop_map(|(file, policies, keys, live_changes)| Case::Store(StoreCase { file, policies, keys, live_changes }));
-        let api = (prop::bool::weighted(0.4), vec((0u8..2, pspec()), 1..=4)).prop_map(|(file, policies)| Case::Api(StoreCase { file, policies, keys: vec![], live_changes: vec![] }));
+        let store = (prop::bool::weighted(0.3), vec((0u8..3, pspec()), 1..=4), vec(keyrel(), 1..=6), vec((any::<u16>(), pspec()), 0..=2), vec(prop::option::weighted(0.4, (0u8..2, any::<bool>())), 4))
+            .prop_map(|(file, policies, keys, live_changes, reimports)| Case::Store(StoreCase { file, policies, keys, live_changes, reimports }));
+        let api = (prop::bool::weighted(0.4), vec((0u8..2, pspec()), 1..=4), vec(prop::option::weighted(0.4, (0u8..2, any::<bool>())), 4))
+            .prop_map(|(file, policies, reimports)| Case::Api(StoreCase { file, policies, keys: vec![], live_changes: vec![], reimports }));
         prop_oneof![240 => pure, 20 => store, 1 => api].boxed()
     }
 
@@ -304,7 +309,7 @@ fn check_store(ctx: &mut Ctx, c: &StoreCase) -> Outcome {
             o.fail("C15/default-policy", "a document that never had a policy must report 'everything'");
         }
         let mut current: [Option<PSpec>; 2] = [None, None];
-        for (slot, p) in &c.policies {
+        for (pi, (slot, p)) in c.policies.iter().enumerate() {
             let policy = to_policy(p);
             match slot {
                 2 => {
@@ -330,6 +335,18 @@ fn check_store(ctx: &mut Ctx, c: &StoreCase) -> Outcome {
                 let got = es(st.store.get_download_policy(target))?;
                 if got != want {
                     o.fail("C15/get-after-set", format!("document {i}: get = {:?}, last set = {:?}", got, want));
+                }
+            }
+            if let Some(Some((d, write))) = c.reimports.get(pi) {
+                let cap = if *write { iroh_docs::Capability::Write(namespace(*d).clone()) } else { iroh_docs::Capability::Read(namespace(*d).id()) };
+                es(st.store.import_namespace(cap))?;
+                o.class("capability-imported-again-after-a-policy-was-set");
+                for (i, target) in [ns, ns2].iter().enumerate() {
+                    let want = current[i].as_ref().map(to_policy).unwrap_or_default();
+                    let got = es(st.store.get_download_policy(target))?;
+                    if got != want {
+                        o.fail("C15/get-after-set", format!("document {i}: after importing a capability for document {d} again (write = {write}) get = {:?}, last set = {:?}", got, want));
+                    }
                 }
             }
         }
@@ -435,8 +452,22 @@ fn check_api(ctx: &mut Ctx, c: &StoreCase) -> Outcome {
                 }
             }
             let mut current: [Option<PSpec>; 2] = [None, None];
-            for (slot, p) in &c.policies {
+            let mut extra = vec![];
+            for (pi, (slot, p)) in c.policies.iter().enumerate() {
                 let s = *slot as usize % 2;
+                if let Some(Some((d, write))) = c.reimports.get(pi) {
+                    // a capability arrives again (e.g. the document is joined once more through a ticket)
+                    let cap = if *write { iroh_docs::Capability::Write(namespace(*d).clone()) } else { iroh_docs::Capability::Read(namespace(*d).id()) };
+                    extra.push(es(within("import", docs.import_namespace(cap)).await?)?);
+                    o.class("capability-imported-again-after-a-policy-was-set");
+                    for (i, h) in handles.iter().take(2).enumerate() {
+                        let want = current[i].as_ref().map(to_policy).unwrap_or_default();
+                        let got = es(within("get", h.get_download_policy()).await?)?;
+                        if got != want {
+                            o.fail("C15/get-after-set", format!("through the client API, document {i}: after importing a capability for document {d} again (write = {write}) get = {:?}, last set = {:?}", got, want));
+                        }
+                    }
+                }
                 es(within("set", handles[s].set_download_policy(to_policy(p))).await?)?;
                 current[s] = Some(p.clone());
                 if p.filters.len() >= 2 {
@@ -455,6 +486,7 @@ fn check_api(ctx: &mut Ctx, c: &StoreCase) -> Outcome {
             }
             if dir.is_some() && !o.failed() {
                 handles.clear();
+                extra.clear();
                 within("shutdown", iroh::protocol::ProtocolHandler::shutdown(&docs)).await?;
                 docs = spawn().await?;
                 o.class("client-api/engine-restarted-from-disk");
